@@ -195,6 +195,9 @@ func (c *RawClient) pump() bool {
 		c.rx = append([]byte(nil), rest...)
 		for _, p := range pkts {
 			c.Packets = append(c.Packets, p)
+			if why := notFromServer(p); why != "" && c.Name != "server" && c.Bad == "" {
+				c.Bad = fmt.Sprintf("the broker sent %s a packet no MQTT 3.1.1 server may send (%s): %s", c.Name, why, p)
+			}
 			if c.AutoAck && !c.Dead {
 				switch {
 				case p.Type == refcodec.PUBLISH && p.QoS == 1:
@@ -318,4 +321,26 @@ func ConnectPacket(o ConnectOpts) *refcodec.Packet {
 		}
 	}
 	return p
+}
+
+// notFromServer: why a packet is not one a conforming server sends to a client.
+func notFromServer(p *refcodec.Packet) string {
+	switch p.Type {
+	case refcodec.CONNACK, refcodec.PUBACK, refcodec.PUBREC, refcodec.PUBREL, refcodec.PUBCOMP, refcodec.SUBACK, refcodec.UNSUBACK, refcodec.PINGRESP:
+	case refcodec.PUBLISH:
+		if len(p.Topic) == 0 {
+			return "empty topic name"
+		}
+		for _, b := range p.Topic {
+			if b == '+' || b == '#' || b == 0 {
+				return "wildcard or NUL in the topic name"
+			}
+		}
+	default:
+		return "packet type a client sends"
+	}
+	if !refcodec.WellFormed(p) {
+		return "malformed"
+	}
+	return ""
 }
